@@ -65,7 +65,7 @@ func RunAll(run *hlib.Run, prop string, sigPrefixes []string, n int) {
 		jobs = append(jobs, job{s, c})
 	}
 	for idx := 0; idx < len(jobs); idx++ {
-		if !run.Mine(idx % len(seeds)) {
+		if idx < len(seeds) && !run.Mine(idx) {
 			continue
 		}
 		s := jobs[idx].seed
